@@ -281,7 +281,8 @@ Record request := {
   meth : str; uri : str;
   allowed : bool;                 (* contains_ip_address(client_address_list, client) - oracle, C05's subject *)
   clen : option str;              (* Content-Length header *)
-  body : str }.
+  body : str;
+  via_server : bool }.            (* the request is sent to the real vinegar HttpServer in front of the handler *)
 Fixpoint has_sub (p s : str) : bool :=
   match s with
   | [] => is_empty p
@@ -375,6 +376,13 @@ Definition do_step_l (O : oracle) (H : handles) (st : step) (lk : bool) (m : tbl
          end
   end.
 Definition apply_omop (m : tbl) (o : option mop) : tbl := match o with Some x => apply_mop m x | None => m end.
+(* What the client of the real HTTP server sees (http/server.py:_delegate_request): no responsible handler -> 404,
+   an exception of the handler -> 500, otherwise the handler's status.  The server hands the UNDECODED request
+   target to the handler, so the addressed system is the same as for a direct call. *)
+Definition http_view (r : result) : result :=
+  match r with RNoMatch => RHttp 404 | RRaise _ => RHttp 500 | _ => r end.
+Definition view (st : step) (r : result) : result :=
+  match st with SHandler _ q => if via_server q then http_view r else r | _ => r end.
 (* observation: per step the result and the table as another process reads it right after the step *)
 Fixpoint run (O : oracle) (H : handles) (steps : list step) (lk : bool) (m : tbl) : list (result * tbl) :=
   match steps with
@@ -383,7 +391,7 @@ Fixpoint run (O : oracle) (H : handles) (steps : list step) (lk : bool) (m : tbl
       match do_step_l O H st lk m with
       | (o, res, lk') =>
           let m' := apply_omop m o in
-          (res, dump m') :: run O H r lk' m'
+          (view st res, dump m') :: run O H r lk' m'
       end
   end.
 Fixpoint final (O : oracle) (H : handles) (steps : list step) (lk : bool) (m : tbl) : tbl :=
